@@ -341,7 +341,7 @@ def _points(fmt, lo, hi, st, quick, seed):
     o = cfg.origin
     mags = MAGS_QUICK if quick else MAGS
     between = [Fraction(1, 4), Fraction(1, 8), Fraction(3, 8)][seed % 3]
-    signed = cfg.lo is None or cfg.lo < 0
+    signed = (cfg.lo is None and fmt in ("int", "float")) or (cfg.lo is not None and cfg.lo < 0)
     if s is not None:
         ks = {0, 1, 2, 3, 7}
         if cfg.hi is not None:
@@ -518,8 +518,26 @@ def _split(lst, n):
     return [lst[i : i + n] for i in range(0, len(lst), n)]
 
 
+# The inputs of the examples the repository's own tests and DESIGN.md §6 document (inputs only, never expected values);
+# evaluated first so that the simplest counterexample of a signature is the one reported.
+DOCUMENTED = [
+    ("numeric", ("uint32", 0, U32, 1), [("documented", "int", 1234567), ("documented", "int", 123456)]),
+    ("numeric", ("int", -I31, I31 - 1, 1), [("documented", "int", 0), ("documented", "int", 27)]),
+    ("numeric", ("float", 4.5, 37, 0.5), [("documented", "float", v) for v in ("27.23", "27.6", "27.26", "27.9")]),
+    ("numeric", ("float", 7.2, 33.4, 0.1), [("documented", "float", v) for v in ("27.23", "27.6", "27.26", "27.9", "27.95")]),
+    ("numeric", ("float", 24.5, 29.5, 1), [("documented", "float", v) for v in ("27.2", "27.6", "27.9", "25.0", "28.3")]),
+    ("numeric", ("float", 24.5, 29.5, 5), [("documented", "float", v) for v in ("27.2", "25.0", "28.3")]),
+    ("numeric", ("uint8", 0, 100, 1), [("documented", "float", v) for v in ("27.0", "27.5", "28.0", "28.5", "29.5", "27.2", "27.6")]),
+    ("numeric", ("uint16", None, None, 1), [("documented", "int", 1234567)]),
+    ("numeric", ("uint8", None, None, 1), [("documented", "int", 1234567)]),
+    ("garbage", ("uint8", None, None, None), [("str", "abc"), ("py", "None"), ("str", "inf"), ("str", "nan")]),
+    ("garbage", ("float", 0, 100, 1), [("str", "abc"), ("py", "None"), ("str", "nan")]),
+]
+
+
 def run(ctx):
     quick = ctx.tier == "quick"
+    ctx.pmap(_work, DOCUMENTED, parallel=False)
     work = []
     n_cfg = 0
     for fmt, lo, hi, st, in_quick in CONFIGS:
